@@ -124,6 +124,8 @@ func (s *stats) violation(prop, key, what string, c map[string]any) {
 	}
 	c["grammar"] = s.it.Text
 	c["flags"] = s.it.Flags
+	c["g"] = s.it.G // the grammar AST, so that `vcheck replay` can rebuild exactly this item
+	c["item"] = s.it.ID
 	emit(&Out{Item: s.it.ID, Fam: s.it.Fam, Kind: "violation", Prop: prop, Key: key, What: what, Case: c})
 }
 
